@@ -230,8 +230,32 @@ def run(chk, facts):
                 n_auto += 1
     chk.ob("R-C03-1", "auto-arith", True, f"{n_auto} arithmetic asserts discharged mechanically (Add/Mul counters, signed differences, division by non-zero constants)")
     chk.floor("R-C03-1", total + n_auto, 100, "panic obligations in the library")
+    # a reviewed site that moved, together with its code, from *all* callers into a private helper they now share keeps its review: the helper
+    # has no entry of its own, each of its callers has a reviewed entry of that kind with more reviewed sites than it still contains, and
+    # the helper is private to their module (a new caller without such a surplus is reported as before)
+    callers_of = defaultdict(set)
+    for a_, bs_ in mir.callgraph().items():
+        for b_ in bs_:
+            callers_of[b_].add(owner_root(mir, facts.syn, a_))
+    private_fns = {f_["qual"] for f_ in facts.syn.fns if f_.get("vis", "") == "" and f_.get("qual") and not f_.get("impl_trait")}
+
+    def moved_from(fn, kind, n):
+        if fn not in private_fns:
+            return None
+        cs = sorted(c_ for c_ in callers_of.get(fn, ()) if c_ != fn)
+        if not cs:
+            return None
+        for c_ in cs:
+            rc = reviewed.get((c_, kind))
+            if rc is None or rc["disposition"] == "finding" or rc["count"] - cnt.get((c_, kind), 0) < n:
+                return None
+        return cs
     for (fn, kind), n in sorted(cnt.items()):
         r = reviewed.get((fn, kind))
+        mv = moved_from(fn, kind, n) if r is None else None
+        if mv:
+            chk.ob("R-C03-1", f"{fn}|{kind}", True, f"{fn}: {n}x `{kind}` - moved here from {[m_.split('::')[-1] for m_ in mv]}, each of which had it reviewed: {reviewed[(mv[0], kind)]['reason'][:120]}", loc[(fn, kind)])
+            continue
         if r is None:
             chk.ob("R-C03-1", f"{fn}|{kind}", False,
                    f"{fn}: {n} unreviewed `{kind.split(':', 1)[1]}` ({kind.split(':')[0]}) - a construct that panics for some value; "
@@ -258,7 +282,16 @@ def run(chk, facts):
         n_scc += 1
         names = sorted({(mir.fns[p].parent if mir.fns[p].kind == "Closure" else p) for p in comp})
         key = min(names)
-        owned = all(any(TREE.search(a) for a in mir.fns[p].locals[1:1 + mir.fns[p].argc]) or mir.fns[p].kind == "Closure" for p in comp)
+        def generic_carrier(p):
+            """a member that receives the tree through a type parameter (`I: IntoIterator<Item = &Name>`): the parameter's type is not
+            visible in its signature, but what it - and the closures written in it - pass on into the recursion is"""
+            b_ = mir.fns[p]
+            if not any(re.fullmatch(r"&*(mut )?\w+/#\d+", a) for a in b_.locals[1:1 + b_.argc]):
+                return False
+            inner = [b_] + [c_ for c_ in mir.fns.values() if c_.kind == "Closure" and c_.parent == p]
+            calls_in = [t for c_ in inner for bb, t in c_.calls() if t.callee in comp and mir.fns[t.callee].kind != "Closure"]
+            return bool(calls_in) and all(any(TREE.search(a) for a in t.argt) for t in calls_in)
+        owned = all(any(TREE.search(a) for a in mir.fns[p].locals[1:1 + mir.fns[p].argc]) or mir.fns[p].kind == "Closure" or generic_carrier(p) for p in comp)
         lookups = sorted({t.callee for p in comp for bb, t in mir.fns[p].calls() if LOOKUP.search(t.callee)})
         rv = next((r for r in rec_reviewed if any(n.endswith(r["member"]) for n in names)), None)
         strict = all(any(TREE_STRICT.search(a) for a in mir.fns[p].locals[1:1 + mir.fns[p].argc]) or mir.fns[p].kind == "Closure" for p in comp)
@@ -270,7 +303,7 @@ def run(chk, facts):
         elif lookups:
             # recursion that follows names through a table: needs the acyclicity validation
             prot = _acyclic_validation(mir)
-            same_key, key_why = _acyclic_same_key(mir)
+            same_key, key_why = _acyclic_same_key(mir, facts.syn)
             if not any(o["key"] == "R-C03-2|acyclic-guard:covers-final-table" for o in chk.obligations):
                 final_ok, final_why = _acyclic_final(mir)
                 chk.ob("R-C03-2", "acyclic-guard:covers-final-table", final_ok, f"acyclicity validation: {final_why}" if final_ok else
@@ -281,34 +314,37 @@ def run(chk, facts):
                 # the name-level walk cannot see that cycle, so such a parent has to be rejected outright
                 try:
                     from .common import inline_lets, fn_paths
+                    from .common import local_helpers
                     cia = facts.syn.one_fn("check_inheritance_acyclic", mod="check::context")
                     okp = False
-                    # what an Err-returning condition depends on: its own text plus, transitively, the initialisers of the locals it names
-                    inits = {}
-                    for n in walk(cia["body"]):
-                        if n.get("k") == "local" and n.get("init") is not None:
-                            for p_ in walk(n["pat"]):
-                                if p_.get("k") == "pident":
-                                    inits.setdefault(p_["name"], []).append(src(n["init"], -30))
+                    # (the validation may be split into private helpers that it calls with `?`: each is looked at on its own)
+                    for cia_part in [cia] + local_helpers(facts.syn, cia):
+                        # what an Err-returning condition depends on: its own text plus, transitively, the initialisers of the locals it names
+                        inits = {}
+                        for n in walk(cia_part["body"]):
+                            if n.get("k") == "local" and n.get("init") is not None:
+                                for p_ in walk(n["pat"]):
+                                    if p_.get("k") == "pident":
+                                        inits.setdefault(p_["name"], []).append(src(n["init"], -30))
 
-                    def closure_text(text):
-                        seen_, todo, out_ = set(), [text], text
-                        while todo:
-                            t_ = todo.pop()
-                            for nm in set(re.findall(r"[A-Za-z_]\w*", t_)):
-                                if nm in inits and nm not in seen_:
-                                    seen_.add(nm)
-                                    for it_ in inits[nm]:
-                                        out_ += " " + it_
-                                        todo.append(it_)
-                        return out_
-                    for p_ in fn_paths(cia["body"]):
-                        r_ = src(strip(p_.result), -30).replace(" ", "") if p_.result is not None else ""
-                        if not r_.startswith("Err("):
-                            continue
-                        cs = closure_text(" ".join(c for c, pol in p_.conds if pol))
-                        if ".parents" in cs and ".generics" in cs:
-                            okp = True
+                        def closure_text(text):
+                            seen_, todo, out_ = set(), [text], text
+                            while todo:
+                                t_ = todo.pop()
+                                for nm in set(re.findall(r"[A-Za-z_]\w*", t_)):
+                                    if nm in inits and nm not in seen_:
+                                        seen_.add(nm)
+                                        for it_ in inits[nm]:
+                                            out_ += " " + it_
+                                            todo.append(it_)
+                            return out_
+                        for p_ in fn_paths(cia_part["body"]):
+                            r_ = src(strip(p_.result), -30).replace(" ", "") if p_.result is not None else ""
+                            if not r_.startswith("Err("):
+                                continue
+                            cs = closure_text(" ".join(c for c, pol in p_.conds if pol))
+                            if ".parents" in cs and ".generics" in cs:
+                                okp = True
                     chk.ob("R-C03-2", "acyclic-guard:no-type-parameter-parent", okp,
                            "acyclicity validation: a class that inherits from one of its own type parameters is rejected" if okp else
                            "acyclicity validation: a class may inherit from its own type parameter (`class A[T]: T`): with `class B: A[B]` the class lookup, which substitutes "
@@ -350,12 +386,15 @@ def run(chk, facts):
 
     # ---------------- R-C03-3 ----------------
     loop_rev = {r["fn"]: r for r in table["loops"]}
-    n_loops = 0
+    n_loops = n_descent = 0
     for b in mir.fns.values():
         for h, blks in b.natural_loops():
             n_loops += 1
             calls = [b.bbs[i].term.callee for i in blks if b.bbs[i].term.k == "call"]
             if any(PROGRESS.search(c) for c in calls):
+                continue
+            if _descends(b, blks):
+                n_descent += 1
                 continue
             owner = b.parent if b.kind == "Closure" else b.path
             r = loop_rev.get(owner)
@@ -411,7 +450,7 @@ def run(chk, facts):
                    f"{owner}: the loop tests `{_root_str(driver)}.{t.callee.split('::')[-1]}()` without consuming, and there is a path back to the test that consumes nothing "
                    f"from that iterator (a look-ahead on a clone does not count): the same character is looked at for ever", f"{b.file}:{line}")
     chk.floor("R-C03-3", n_peek, 3, "loops driven by a non-consuming test")
-    chk.ob("R-C03-3", "loops", True, f"{n_loops} natural loops examined")
+    chk.ob("R-C03-3", "loops", True, f"{n_loops} natural loops examined ({n_descent} of them make progress by descending an owned structure: a reference replaced by a reference to a field of its target)")
     chk.floor("R-C03-3", n_loops, 60, "natural loops")
     _callbacks(chk, facts)
 
@@ -473,15 +512,51 @@ def run(chk, facts):
     chk.notes.append(f"C03: {total + n_auto} panic obligations, {n_scc} recursive SCCs, {n_loops} loops, {n_casts} signed->unsigned casts.")
 
 
-def _acyclic_same_key(mir):
+def _descends(b, blks):
+    """pointer chasing through an owned structure: inside the loop a reference-typed local is replaced by a reference to a *field* of
+    what it points to (`while let Call(inner, _) = cur { cur = inner }`) - each iteration is one level deeper in a finite tree.
+    Flow-insensitive within the loop: derived[l] = (root local, passed through a field projection)"""
+    derived = {}
+    PASS = re.compile(r"::(as_ref|deref|as_mut|deref_mut|borrow|as_deref)$")
+    edges = []          # (dst local, src place)
+    for i in blks:
+        bb = b.bbs[i]
+        for s_ in bb.stmts:
+            if s_.rv in ("Ref", "Use", "Cast", "CopyForDeref") and len(s_.ops) == 1 and s_.ops[0].place is not None and not s_.dst.proj:
+                edges.append((s_.dst.local, s_.ops[0].place))
+        t = bb.term
+        if t.k == "call" and PASS.search(t.callee) and len(t.args) == 1 and t.args[0].place is not None and t.dst is not None and not t.dst.proj:
+            edges.append((t.dst.local, t.args[0].place))
+    for _ in range(6):
+        for dst, pl in edges:
+            through = any(isinstance(p_, str) and p_.startswith(".") for p_ in pl.proj)
+            srcs = {(pl.local, through)} | {(r, f or through) for (r, f) in derived.get(pl.local, ())}
+            derived.setdefault(dst, set()).update(srcs)
+    for x, srcs in derived.items():
+        if (x, True) in srcs and x < len(b.locals) and b.locals[x].startswith("&"):
+            return True
+    return False
+
+
+def _acyclic_same_key(mir, syn=None):
     """the validation must follow the class table by the key the recursion follows it by. `Context::class` finds a class by its
     bare name (String == String); a guard that compares generic-sensitive names (StringName / TrueName / Name equality also
     compares the generic arguments) misses `class Node[T]: Tree[T]` / `class Tree[E]: Node[E]`.
     -> (ok, description)"""
+    helpers = set()
+    if syn is not None:
+        from .common import local_helpers
+        try:
+            cia = syn.one_fn("check_inheritance_acyclic", mod="check::context")
+            helpers = {h["qual"] for h in local_helpers(syn, cia)}
+        except AnchorError:
+            pass
     def eq_types(pred):
         out = []
         for b in mir.fns.values():
             owner = b.parent if b.kind == "Closure" else b.path
+            if (owner or "") in helpers:                      # a private helper of the guard is part of the guard
+                owner = "check::context::check_inheritance_acyclic"
             if pred(owner or ""):
                 for bb, t in b.calls():
                     if re.search(r"::(eq|ne)$", t.callee):
